@@ -84,9 +84,14 @@ def compile_many(jobs):
 
 
 def prune(prefix, keep):
+    """drop old build directories (disk), but never one that was used in the last 30 minutes (it may be in use by a
+    concurrent check against another tree)"""
+    keep = max(keep, 3)
     ds = sorted(glob.glob(os.path.join(BUILD, prefix + '-*')), key=os.path.getmtime, reverse=True)
+    now = time.time()
     for d in ds[keep:]:
-        shutil.rmtree(d, ignore_errors=True)
+        if now - os.path.getmtime(d) > 1800:
+            shutil.rmtree(d, ignore_errors=True)
 
 
 def build(flavour, binary='runner'):
@@ -210,7 +215,7 @@ def crash_signature(output):
             m = re.search(r'ERROR: (\w+Sanitizer): ([\w-]+)', output)
             if m:
                 kind = m.group(2)
-    fm = re.search(r'(/repo/[\w/.]+):(\d+)', output)
+    fm = re.search(r'(/[\w/.-]+/engine/[\w.]+):(\d+)', output)
     frame = (os.path.basename(fm.group(1)) + ':' + fm.group(2)) if fm else 'noframe'
     return 'crash:%s:%s' % (kind, frame)
 
